@@ -1,7 +1,9 @@
 SPECIFICATION Spec
 CONSTANT HdrSets <- QuickHdrSets
 CONSTANT Methods <- AllMethods
+CONSTANT SeqDom <- QuickSeqDom
 CONSTANT Schemes <- AllSchemes
 INVARIANT TypeOK
 INVARIANT InvC13
 INVARIANT InvExpected
+INVARIANT InvSeqConn
